@@ -621,6 +621,7 @@ def run(rep):
         compare(rep, m['kind'], m['key'], code, model, m['scales'], m['tol'], m['info'], line, worst)
     rep.coverage['worst_model_vs_code'] = {k: float('%.3g' % v) for k, v in worst.items()}
 
+    config_stream(rep, rng, quick)
     if not ok and not rep.violations:
         rep.violation('lean', 'Lean side of C04 no longer checks: ' + why, dict(reason=why), found_input=False)
     rep.assumptions += [
@@ -648,6 +649,57 @@ def run(rep):
                       trusted=['Lean 4.33 kernel + Mathlib (Complex.betaIntegral, Gamma)', 'Scalar/MB.lean.in instantiated at Float and ℝ '
                                '(same text)', 'evolution operator, _fshu (loggamma), couplings, C1, p_roots are parameters of the model',
                                'identification Cx ℝ ≅ ℂ (Proofs/Evol.lean, toC)', 'harness/props/C04.py'])
+
+
+def config_stream(rep, rng, quick):
+    """several theories of one class with different Q02 / contour / coupling evaluated at a COMMON Q2 in one session,
+    against a fresh interpreter that evaluates each job on fresh objects in reverse order (harness/ref_eval.py)"""
+    import json
+    import os
+    import tempfile
+    import gepard as g
+    import ref_eval
+    par = {'ns': 0.17, 'al0s': 1.1, 'alps': 0.15, 'ms2': 1.0, 'secs': 0.0, 'al0g': 1.2, 'alpg': 0.15, 'mg2': 0.7, 'secg': 0.0}
+    configs = [dict(p=0, Q02=1.0), dict(p=0), dict(p=0, Q02=2.0, c=0.45), dict(p=0, phi=1.9)]
+    if not quick:
+        configs += [dict(p=1, scheme='csbar', Q02=1.0), dict(p=1, scheme='csbar')]
+    bases = ['PWNormGPD', 'MellinBarnesCFF', 'DIS', 'BMK']
+    jobs = []
+    for q in ([4.0] if quick else [4.0, 9.0]):
+        for x in ([0.01] if quick else [0.003, 0.05]):
+            for ci, kw in enumerate(configs):
+                spec = dict(bases=bases, kwargs=kw, params=par)
+                jobs.append(dict(theory=spec, cfg=ci, op='Hx', point=dict(x=x, eta=0, t=0, Q2=q)))
+                jobs.append(dict(theory=spec, cfg=ci, op='Hx', point=dict(x=x, eta=x, t=-0.1, Q2=q)))
+                jobs.append(dict(theory=spec, cfg=ci, op='DISF2', point=dict(xB=x, Q2=q)))
+    shared, main_res = {}, []
+    for j in jobs:
+        th = shared.get(j['cfg'])
+        if th is None:
+            th = shared[j['cfg']] = ref_eval.build(j['theory'])
+        try:
+            main_res.append(ref_eval.canon(getattr(th, j['op'])(g.DataPoint(**j['point']))))
+        except Exception as e:
+            main_res.append('EXC:' + type(e).__name__)
+    order = list(range(len(jobs)))[::-1]
+    fd, path = tempfile.mkstemp(suffix='.json', dir=os.path.join(common.VERIF, 'replays'))
+    os.close(fd)
+    try:
+        json.dump([jobs[i] for i in order], open(path, 'w'))
+        rc, out, err = common.sh(['/venv/bin/python', os.path.join(common.VERIF, 'harness', 'ref_eval.py'), path], timeout=1500)
+    finally:
+        os.remove(path)
+    if rc != 0:
+        raise RuntimeError('reference interpreter failed: ' + err[-500:])
+    ref = dict(zip(order, json.loads(out.strip().splitlines()[-1])))
+    for i, (j, r) in enumerate(zip(jobs, main_res)):
+        rep.case('config', (i, j['cfg'], j['op'], tuple(sorted(j['point'].items()))),
+                 sample=dict(config=j['theory']['kwargs'], op=j['op'], point=j['point']) if i < 2 else None)
+        if r != ref[i]:
+            rep.violation('config/%s' % j['op'],
+                          '%s of PWNormGPD theory %s at %s returns %s in a session that also evaluated other configurations at the '
+                          'same Q2, but %s on fresh objects in a fresh interpreter' % (j['op'], j['theory']['kwargs'], j['point'], r[:60], ref[i][:60]),
+                          dict(job=j, shared_session=r, fresh_interpreter=ref[i]))
 
 
 def replay(path):
